@@ -160,6 +160,9 @@ class OpsMixin:
         return Val(a.ty, z3.Map(self._f_and, a.t, z3.Map(self._f_not, b.t)))
 
     def set_subset(self, a, b):
+        if not (z3.is_array(a.t) and z3.is_array(b.t)) or z3.is_quantifier(a.t) or z3.is_quantifier(b.t):
+            x = z3.Const(fresh_name("sx"), self.reg.sort(a.ty.args[0]))
+            return z3.ForAll([x], z3.Implies(z3.Select(a.t, x), z3.Select(b.t, x)))
         return z3.Map(self._f_and, a.t, z3.Map(self._f_not, b.t)) == self.empty_set(a.ty.args[0]).t
 
     @property
